@@ -434,6 +434,11 @@ func cmdCheck(args []string) int {
 				// call): the harness may not assert the resulting text, so a passing native run does
 				// not refute it
 				status = "symbolic-only"
+			case r.Status == "pass" && len(c.v.Sched) > 0:
+				// the counterexample needs the goroutine switches recorded in the witness; an
+				// ordinary native run follows the Go scheduler's interleaving, not that one, so
+				// a passing run does not refute it (same standing as a no_replay entry)
+				status = "symbolic-only:schedule-dependent"
 			default:
 				status = "not-reproduced:" + r.Status
 			}
